@@ -136,8 +136,11 @@ def validate(traces, workdir, module="TraceStore", jvms=12, chunk=25, timeout=90
     for i, r in enumerate(results):
         out = r["out"]
         if debug:
-            for m in re.finditer(r'<<"MISMATCH"(?:.|\n)*?>>\n(?=[^ ])', out):
-                print(m.group(0)[:6000])
+            idx = [m.start() for m in re.finditer(r'<<\s*"MISMATCH"', out)]
+            for a in idx[:12]:
+                b = out.find('<<"VIOL"', a)
+                b = b if b > a else out.find('<< "VIOL"', a)
+                print(out[a:b if b > a else a + 6000][:6000])
         if r["rc"] == -9 and '"VIOL"' not in out:
             raise C.Inconclusive("TLC trace validation timed out")
         if r["rc"] == -9:
